@@ -104,6 +104,146 @@ func byteClass(lookup ssa.Value) (accepted [256]bool, ok bool, why string) {
 	return accepted, true, ""
 }
 
+// predClass: the set of values in 0..256 (256 standing for every larger value, sound when all
+// constants compared with are below 256) for which the one-argument predicate function fn returns
+// true. fn must consist of comparisons of its parameter with constants, boolean connectives and
+// constant / phi / comparison returns; anything else fails (undecided), never a guess.
+func predClass(fn *ssa.Function) (accepted [257]bool, ok bool, why string) {
+	if fn == nil || len(fn.Blocks) == 0 || len(fn.Params) != 1 {
+		return accepted, false, "not a one-argument function with a body"
+	}
+	param := ssa.Value(fn.Params[0])
+	env := map[*ssa.Phi]bool{}
+	var evalBool func(v ssa.Value, c int64, prev, cur *ssa.BasicBlock, depth int) (bool, bool)
+	evalBool = func(v ssa.Value, c int64, prev, cur *ssa.BasicBlock, depth int) (bool, bool) {
+		if depth > 8 {
+			return false, false
+		}
+		switch x := strip(v).(type) {
+		case *ssa.Const:
+			if x.Value == nil {
+				return false, false
+			}
+			return x.Value.ExactString() == "true", true
+		case *ssa.BinOp:
+			a, b, op := x.X, x.Y, x.Op
+			if strip(b) == param {
+				a, b, op = b, a, swapOp(op)
+			}
+			if strip(a) != param {
+				return false, false
+			}
+			k, isC := constInt(b)
+			if !isC || k > 255 {
+				return false, false
+			}
+			switch op {
+			case token.EQL:
+				return c == k, true
+			case token.NEQ:
+				return c != k, true
+			case token.LSS:
+				return c < k, true
+			case token.LEQ:
+				return c <= k, true
+			case token.GTR:
+				return c > k, true
+			case token.GEQ:
+				return c >= k, true
+			}
+			return false, false
+		case *ssa.UnOp:
+			if x.Op == token.NOT {
+				r, ok := evalBool(x.X, c, prev, cur, depth+1)
+				return !r, ok
+			}
+		case *ssa.Phi:
+			r, ok := env[x]
+			return r, ok
+		}
+		return false, false
+	}
+	// enter: evaluate the phis of block b for the edge prev → b
+	enter := func(c int64, prev, b *ssa.BasicBlock) bool {
+		if prev == nil {
+			return true
+		}
+		idx := -1
+		for i, p := range b.Preds {
+			if p == prev {
+				idx = i
+			}
+		}
+		vals := map[*ssa.Phi]bool{}
+		for _, in := range b.Instrs {
+			ph, ok := in.(*ssa.Phi)
+			if !ok {
+				break
+			}
+			if idx < 0 {
+				return false
+			}
+			if _, isBool := ph.Type().Underlying().(*types.Basic); !isBool {
+				continue
+			}
+			r, okr := evalBool(ph.Edges[idx], c, nil, nil, 0)
+			if !okr {
+				continue
+			}
+			vals[ph] = r
+		}
+		for k, v := range vals {
+			env[k] = v
+		}
+		return true
+	}
+	for c := int64(0); c <= 256; c++ {
+		var prev *ssa.BasicBlock
+		b := fn.Blocks[0]
+		for k := range env {
+			delete(env, k)
+		}
+		for steps := 0; ; steps++ {
+			if !enter(c, prev, b) {
+				return accepted, false, "phi without a matching predecessor"
+			}
+			if steps > 200 {
+				return accepted, false, "predicate does not terminate"
+			}
+			last := b.Instrs[len(b.Instrs)-1]
+			switch t := last.(type) {
+			case *ssa.Return:
+				if len(t.Results) != 1 {
+					return accepted, false, "unexpected return arity"
+				}
+				r, okr := evalBool(t.Results[0], c, prev, b, 0)
+				if !okr {
+					return accepted, false, "result is not built from comparisons of the argument with constants"
+				}
+				accepted[c] = r
+			case *ssa.Jump:
+				prev, b = b, b.Succs[0]
+				continue
+			case *ssa.If:
+				r, okr := evalBool(t.Cond, c, prev, b, 0)
+				if !okr {
+					return accepted, false, "a branch does not compare the argument with a constant"
+				}
+				if r {
+					prev, b = b, b.Succs[0]
+				} else {
+					prev, b = b, b.Succs[1]
+				}
+				continue
+			default:
+				return accepted, false, fmt.Sprintf("unexpected terminator %T", last)
+			}
+			break
+		}
+	}
+	return accepted, true, ""
+}
+
 func classString(a [256]bool) string {
 	var sb strings.Builder
 	for i := 0; i < 256; i++ {
